@@ -1711,4 +1711,77 @@ theorem walk1_sim2 {P : Prims} (hP : PushOne P) : ∀ (d : Desc) (a a' : Abs), a
     | seq _ _ => simp [abs1] at ha
 end
 
+/-! ### from a finished walk to the wired tree -/
+
+/-- what the wired tree of a `wireLinksOK` template satisfies -/
+structure Linked (t : List Desc) (o : SubsetOut) (w : Wired) : Prop where
+  wired : wireRaw t o = .ok w
+  next : w.st.next = o.vals.length
+  len : o.descs.length = o.vals.length
+  good : GoodL o w.nodes
+  noA : ∀ d ∈ o.descs, d.isAssoc = false
+  /-- every attribute attached through a link sits under the owner the coder's link names; the owner lies in front
+      of it; the attributes it was created with are none or its meaning node, which lies behind the owner -/
+  owners : ∀ p ∈ w.st.tab, ∃ k i own, p.2 = .value k i own ∧ p.1 < i ∧ i < w.st.next ∧
+    lookupLink o.links i = some p.1 ∧ OwnOK p.1 i own
+  /-- every link the coder recorded is shown -/
+  shown : ∀ q ∈ o.links, ∃ p ∈ w.st.tab, p.2.index? = some q.1
+
+theorem walk_linked {P : Prims} (hP : PushOne P) {t : List Desc} (hq : wireLinksOK t = true) {s0 s : St}
+    (hd0 : s0.descs = []) (hl0 : s0.links = []) (hr0 : s0.regs = {}) (hv0 : ∃ r, s0.vals = [] :: r)
+    (ha0 : ∀ l ∈ s0.vals, l = []) (hs : walkList P t s0 = .ok s) {o : SubsetOut}
+    (hod : o.descs = s.descs.reverse) (hol : o.links = s.links.reverse)
+    (hov : ∀ l, s.vals.head? = some l → o.vals = l.reverse)
+    (hlinks : ∀ l ∈ o.links, ∃ p id, l.2 < p ∧ p < l.1 ∧ C07.IsBitmapOp id ∧ o.descs[p]? = some (.oper id)) :
+    ∃ w, Linked t o w := by
+  unfold wireLinksOK at hq
+  cases habs : absList t {} with
+  | none => rw [habs] at hq; cases hq
+  | some a' =>
+    obtain ⟨r, hv0⟩ := hv0
+    have hi0 : Inv2 {} s0 := by
+      refine ⟨by rw [hr0], by rw [hr0], by rw [hr0], ⟨[], by rw [hv0]; rfl, by rw [hd0]; rfl⟩, ?_, ?_, by rw [hr0]; rfl,
+        by rw [hr0]; rfl⟩
+      · intro l hl; rw [ha0 l hl, hd0]; rfl
+      · intro d hd; rw [hd0] at hd; cases hd
+    have sim := walkList_sim2 hP t {} a' habs s0 s hi0 hs
+    obtain ⟨l, hl, hlen⟩ := sim.1.1.vals
+    have hvals := hov l hl
+    have hnoA : ∀ d ∈ o.descs, d.isAssoc = false := by
+      intro d hd
+      rw [hod] at hd
+      exact sim.1.1.noA d (List.mem_reverse.mp hd)
+    have hf : Fin o := ⟨hlinks, hnoA⟩
+    have hb : Below2 o s := by
+      refine ⟨⟨l, hl, ?_, ?_⟩, ?_⟩
+      · rw [hvals]; exact List.prefix_refl _
+      · rw [hod]; exact List.prefix_refl _
+      · rw [hol]; exact List.prefix_refl _
+    have hw0 : R o {} s0 {} := by
+      refine ⟨by rw [hd0]; rfl, rfl, rfl, rfl, rfl, rfl, MeanOK.off, MeanOK.off, ?_, ?_, ?_⟩
+      · intro j hj; exact absurd hj (Nat.not_lt_zero j)
+      · intro p hp; cases hp
+      · intro q hq; rw [hl0] at hq; cases hq
+    obtain ⟨ns, w', e, hr', g⟩ := sim.2 o {} hf hw0 hb
+    dsimp only at e
+    have hn : w'.next = o.vals.length := by rw [hr'.next, ← hlen, hvals]; simp
+    refine ⟨{ nodes := ns, st := w' }, by unfold wireRaw; rw [e], hn, by rw [hod, hvals]; simp [hlen], g, hnoA,
+      hr'.tabS, ?_⟩
+    intro q hq
+    rw [hol] at hq
+    exact hr'.tabC q (List.mem_reverse.mp hq)
+
+/-- the side conditions of the conversion theorem hold -/
+theorem Linked.sideOK {t : List Desc} {o : SubsetOut} {w : Wired} (h : Linked t o w) : w.sideOK o = true := by
+  unfold Wired.sideOK
+  rw [h.good.1, h.next]
+  simp only [Bool.true_and, beq_self_eq_true, Bool.and_true, List.all_eq_true]
+  intro p hp
+  obtain ⟨k, i, own, e, _, hi, _, _⟩ := h.owners p hp
+  rw [e]
+  have hlt : i < o.descs.length := by rw [h.len, ← h.next]; exact hi
+  have hd : o.descs[i]? = some o.descs[i] := List.getElem?_eq_getElem hlt
+  have hA := h.noA _ (List.getElem_mem hlt)
+  simp [tabAttrOK, hd, hA]
+
 end Bufr.C09
